@@ -19,6 +19,10 @@ package serf
 //@ func (l *LamportClock) Increment() (t LamportTime)
 //@   ensures incr_past_entry [C19]: uint64(t) > old(uint64(l.Time()))
 //@   ensures incr_le_now [C19]: l.Time() >= t
+//@   # distinctness under concurrency: the value returned is the one written by this
+//@   # call's own (single) atomic read-modify-write, not a value merely read
+//@   ensures incr_own_ticket [C19]: logN("mint.LamportClock.counter") == old(logN("mint.LamportClock.counter"))+1 &&
+//@       logAt[uint64]("mint.LamportClock.counter", old(logN("mint.LamportClock.counter"))) == uint64(t)
 //@ end
 
 //@ func (l *LamportClock) Witness(v LamportTime)
@@ -34,3 +38,34 @@ package serf
 //@   assert("distinct", "C19", a != b)
 //@   assert("ordered", "C19", b > a)
 //@ }
+
+// ---------------------------------------------------------------- membership state (C02 C03 C04 C15)
+
+//@ pure func wfMembers(s *Serf) bool {
+//@   return s != nil && s.members != nil && s.recentIntents != nil && s.config != nil &&
+//@     forall(func(k string) bool { m, ok := s.members[k]; return ok ==> m != nil && m.Name == k })
+//@ }
+
+//@ func (s *Serf) handleNodeJoinIntent(joinMsg *messageJoin) (rebroadcast bool)
+//@   requires wf: wfMembers(s) && joinMsg != nil
+//@   let m, known := s.members[joinMsg.Node]
+//@   let it, buffered := s.recentIntents[joinMsg.Node]
+//@   ensures wf [C15]: wfMembers(s)
+//@   ensures stale_ignored [C02,C04]: old(known) && joinMsg.LTime <= old(m.statusLTime) ==>
+//@       !rebroadcast && m.Status == old(m.Status) && m.statusLTime == old(m.statusLTime)
+//@   ensures newer_a [C02,C04]: old(known) && joinMsg.LTime > old(m.statusLTime) ==> rebroadcast
+//@   ensures newer_b [C02,C04]: old(known) && joinMsg.LTime > old(m.statusLTime) ==> m.statusLTime == joinMsg.LTime
+//@   ensures newer_c [C02,C04]: old(known) && joinMsg.LTime > old(m.statusLTime) ==> m.Status == ite(old(m.Status) == StatusLeaving, StatusAlive, old(m.Status))
+//@   ensures newer_d [C02,C04]: old(known) && joinMsg.LTime > old(m.statusLTime) && old(m.Status) == StatusLeaving ==> m.Status == StatusAlive
+//@   ensures newer_e [C02,C04]: old(known) && joinMsg.LTime > old(m.statusLTime) && old(m.Status) != StatusLeaving ==> m.Status == old(m.Status)
+//@   ensures unknown_buffered [C02,C04]: !old(known) ==>
+//@       rebroadcast == (!old(buffered) || joinMsg.LTime > old(it.LTime)) &&
+//@       (rebroadcast ==> buffered && it.LTime == joinMsg.LTime && it.Type == messageJoinType) &&
+//@       (!rebroadcast ==> buffered && it == old(it))
+//@   ensures others_unchanged [C02,C15]: forall(func(k string) bool { o, ok := s.members[k]
+//@       return ok && k != joinMsg.Node ==> o.Status == old(o.Status) && o.statusLTime == old(o.statusLTime) })
+//@   ensures members_same [C02,C15]: forall(func(k string) bool { o, ok := s.members[k]; oo, ook := old(s.members)[k]
+//@       return ok == old(ook) && (ok ==> o == old(oo)) })
+//@   ensures ltime_monotone [C02]: forall(func(k string) bool { o, ok := s.members[k]
+//@       return ok ==> o.statusLTime >= old(o.statusLTime) })
+//@ end
